@@ -377,6 +377,12 @@ class SBool:
 
 
 class SInt:
+    def __getitem__(self, key):
+        # a NumPy scalar / 0-d array indexed with () or ... is the scalar itself
+        if key == () or key is Ellipsis:
+            return self
+        raise Unsupported('scalar proxy indexed with %r' % (key,))
+
     def __init__(self, z):
         self.z = z3.IntVal(z) if isinstance(z, int) else z
 
@@ -555,6 +561,12 @@ def _defer(o):
 
 
 class SReal:
+    def __getitem__(self, key):
+        # a NumPy scalar / 0-d array indexed with () or ... is the scalar itself
+        if key == () or key is Ellipsis:
+            return self
+        raise Unsupported('scalar proxy indexed with %r' % (key,))
+
     def __init__(self, z):
         self.z = rv(z) if not isinstance(z, z3.ExprRef) else (z3.ToReal(z) if z.sort() == z3.IntSort() else z)
 
